@@ -531,6 +531,7 @@ inline rc::Gen<Workload> genWorkload(int tier)
                 HistoryGenParams p;
                 p.maxFrames = tier ? 40 : 20;
                 p.bigSegmentHistories = 12;
+                p.manyEndpoints = 4;  // a quarter of the decoder workloads keep 60..1030 messages in progress at once
                 w.hist = *genFrameHistory(p);
                 // two thirds of the histories also hold frames with typed payloads the validators accept
                 if (*range<int>(0, 2) != 0)
